@@ -754,6 +754,10 @@ impl TzifOwned {
             }
             start = end + 1;
         }
+        // The new designation goes at the end of the table, which is not
+        // necessarily where the search above stopped: the table may have
+        // bytes after its last NUL terminator.
+        let start = self.fixed.designations.len();
         self.fixed.designations.push_str(needle);
         self.fixed.designations.push('\0');
         let end = start + needle.len();
